@@ -22,6 +22,7 @@ LEVEL_TEXT = ("Generated modules (def / async def / classes with plain, static, 
               "with every quote form and prefix) and package trees (with and without __init__.py) are collected in the styles "
               "auto, google and freeform; the collected (module, callname, index) multiset, the block order and the prompt "
               "lines of every doctest must equal the generator's inventory. Randomised exploration with shrinking.")
+LEVEL_ADDED = ('A quarter of the module files are written over an earlier version of themselves that was collected a moment before (what counts is the file as it is now); files may open with blank lines.')
 LEVEL_NOTE = ("Trusted: the generator's inventory (style rules are encoded in the generator, not re-derived from text). Not "
               "generated because the statement does not decide them: duplicate names in one scope, the reversed main guard, "
               "Script:/Benchmark: blocks and freeform skip words, tags whose next line is not indented, definitions in "
